@@ -1,6 +1,6 @@
 (* C20 - def-use chains equal the reaching-definitions solution.  Statements only; proofs in Dad/ReachDefProofs.v. *)
 From Coq Require Import ZArith List Bool.
-Require Import V.Lib.Val V.Lib.Result V.Dad.ReachDefModel V.Dad.ReachDefProofs.
+Require Import V.Lib.Val V.Lib.Result V.Dad.ReachDefModel V.Dad.ReachDefProofs V.Dad.ReachDefTerm.
 Import ListNotations.
 Open Scope Z_scope.
 
@@ -25,6 +25,22 @@ Print Assumptions C20_use_def_rows_are_the_reaching_definitions.
 
 (* each iteration keeps the two invariants the result rests on: every recorded definition has a witness path, and every
    node outside the worklist is stable *)
+(* the iteration always ends: the sets only grow, they hold definitions of the method only, and a node is queued again only
+   when a set grew - so, for every well-formed method, running it on any fuel from steps_bound on gives one and the same
+   state, in which R[v] is exactly the path solution; the executable analysis (fixed fuel) gives that state or reports that its
+   fuel ran out *)
+Theorem C20_iteration_ends_with_the_path_solution : forall m, wf m ->
+  exists s, (forall fuel, (steps_bound m <= fuel)%nat -> run fuel m (g_rpo m) (init_state m) = Some s) /\
+            (forall v loc, In v (all_nodes m) -> (In loc (getR s v) <-> exists reg, reach_in m reg loc v)) /\
+            (analysis m = None \/ analysis m = Some s).
+Proof. exact analysis_ends. Qed.
+Print Assumptions C20_iteration_ends_with_the_path_solution.
+(* one pass of the loop body keeps the growth invariant and strictly lowers (queue length + degree * room left in the sets) *)
+Theorem C20_every_pass_makes_progress : forall m node rest s w s', wf m -> real m node -> mono m s -> step m node rest s = (w, s') ->
+  mono m s' /\ (length w + deg m * phi m s' < length (node :: rest) + deg m * phi m s)%nat /\ (forall x, In x w -> In x rest \/ In x (sucs m node)).
+Proof. exact step_mono. Qed.
+Print Assumptions C20_every_pass_makes_progress.
+
 Theorem C20_iteration_step_keeps_the_invariants : forall m node rest s w s', wf m ->
   inv m (node :: rest) s -> step m node rest s = (w, s') -> inv m w s'.
 Proof. exact step_inv. Qed.
